@@ -27,6 +27,10 @@ def main(tier, seed):
     rep.coverage["tracevm_selftest_rejected"] = tracevm.selftest(bins[0][1])
     profcheck.run_scenarios(rep, "exception", scenarios.exception_scenarios(), bins, PROP)
     profcheck.run_scenarios(rep, "exitpaths", scenarios.exit_path_scenarios(), bins, PROP)
+    # handlers in the presence of the other control transfers: a fiber switch made from inside try / catch / finally blocks (with a
+    # completion pending), and exceptions that cross a module boundary on their way to the handler (whose globals must be its own)
+    profcheck.run_scenarios(rep, "switchcontexts", scenarios.fiber_switch_context_scenarios(), bins, PROP)
+    profcheck.run_scenarios(rep, "crossmodule", scenarios.cross_module_scenarios(), bins, PROP)
     rep.coverage["exhaustive"] = True
     rep.coverage["rule"] = ("programs nesting try/catch/finally with loops and functions, explicit throws, failing built-in operations and throws "
                             "from callees, every exit path from every block; the reference machine delivers completions structurally (innermost "
